@@ -162,6 +162,12 @@ class Runner:
                 and not isinstance(args[0], bool) else None
             rets = self.cfg.get('returns') or {}
             ret = rets.get(tok, rets.get(str(tok)))
+            if tok in (self.cfg.get('bye_tokens') or ()):
+                # a "bye" handler: it disconnects the sender, then returns
+                # its value
+                sio = self.sio
+                return D.Do(ret, [lambda: sio.disconnect(sid,
+                                                         namespace=ns)])
             delay = (self.cfg.get('delays') or {}).get(tok)
             if delay is not None:
                 return D.Delay(ret, delay, lambda: self.events.append(
